@@ -11,10 +11,13 @@ From V Require Import Model.CasesLib Model.Dst Model.PredictRows Model.DstRun Pr
 Import ListNotations.
 
 (* ------------------------------------------------------------------ _get_dst_indices *)
-(* on a frame with usage on every row and resolvable date labels it returns exactly the short days (with the
-   skipped hour) and the long days (with the repeated hour) *)
-Theorem C06_get_dst_indices_valid : forall days pat,
-  Forall2 realises days pat -> forallb kind_ok pat = true -> get_dst_indices days = Ok (indices_of pat).
+(* `pol` says which behaviour is modelled (Dst.as_coded: the unchanged code; Dst.repaired: days are recognised by
+   their number of rows and looked up by a mask — the proposed repairs of D11 and D18); `realises pol` asks for
+   usage on every row only when non-null usage is what is counted, and for resolvable date labels only when labels
+   are looked up.  On such a frame it returns exactly the short days (with the skipped hour) and the long days (with
+   the repeated hour) *)
+Theorem C06_get_dst_indices_valid : forall pol days pat,
+  Forall2 (realises pol) days pat -> forallb kind_ok pat = true -> get_dst_indices pol days = Ok (indices_of pat).
 Proof. exact get_dst_indices_valid_l. Qed.
 Print Assumptions C06_get_dst_indices_valid.
 
@@ -80,29 +83,42 @@ Print Assumptions C06_contiguous_index.
 (* ------------------------------------------------------------------ HourlyModel._predict *)
 (* The full statement: whatever the clock pattern, with or without usage, whatever the zone does at midnight,
    predict returns the input index with a value on every row. *)
-Definition clock_only (d : day) (k : daykind) : Prop := hours d = clock_hours k.
-Definition C06_hourly_statement : Prop :=
+Definition C06_hourly_statement (pol : policy) : Prop :=
   forall (V : Type) (mean2 : V -> V -> V) (feat : hour_stamp -> V) (regress : list (list V) -> list V),
   (forall agg, length (regress agg) = 24 * length agg) ->
   forall days pat, Forall2 clock_only days pat -> forallb kind_ok pat = true ->
   StronglySorted Z.lt (index_of days) ->
-  exists y, hourly_predict mean2 feat regress days = Ok (combine (index_of days) (map Some y)).
+  exists y, hourly_predict mean2 feat regress pol days = Ok (combine (index_of days) (map Some y)).
 
-(* What holds of the code as it is: the statement under the guards `realises` (usage present on every row, date
+(* What holds: the statement under the guards `realises pol` (for the code as it is: usage present on every row, date
    labels resolvable) and `pattern_ok` (see Model/Dst.v).  index out = index in, hence strictly increasing, the
    skipped hour absent and the repeated hour twice (the output carries the input stamps), no NaN introduced by the
    final reindex; the values are by_day of the regression output on the 24-slot matrix. *)
 Theorem C06_hourly_predict_index_partial :
   forall (V : Type) (mean2 : V -> V -> V) (feat : hour_stamp -> V) (regress : list (list V) -> list V),
   (forall agg, length (regress agg) = 24 * length agg) ->
-  forall days pat, Forall2 realises days pat -> pattern_ok pat = true ->
+  forall pol days pat, Forall2 (realises pol) days pat -> pattern_ok pat = true ->
   StronglySorted Z.lt (index_of days) ->
-  exists agg y, hourly_predict mean2 feat regress days = Ok (combine (index_of days) (map Some y))
+  exists agg y, hourly_predict mean2 feat regress pol days = Ok (combine (index_of days) (map Some y))
                 /\ length y = length (index_of days)
                 /\ rel3 day_fix pat (map (fun d => map feat (d_rows d)) days) agg
                 /\ by_day mean2 pat (regress agg) = Some y.
 Proof. intros V. exact (@hourly_predict_valid V). Qed.
 Print Assumptions C06_hourly_predict_index_partial.
+
+(* after the repairs of D11 and D18 the guards on usage and on date labels disappear: with or without `observed`,
+   whatever the zone does at midnight; what remains is `pattern_ok` *)
+Theorem C06_hourly_predict_index_repaired :
+  forall (V : Type) (mean2 : V -> V -> V) (feat : hour_stamp -> V) (regress : list (list V) -> list V),
+  (forall agg, length (regress agg) = 24 * length agg) ->
+  forall days pat, Forall2 clock_only days pat -> pattern_ok pat = true ->
+  StronglySorted Z.lt (index_of days) ->
+  exists agg y, hourly_predict mean2 feat regress repaired days = Ok (combine (index_of days) (map Some y))
+                /\ length y = length (index_of days)
+                /\ rel3 day_fix pat (map (fun d => map feat (d_rows d)) days) agg
+                /\ by_day mean2 pat (regress agg) = Some y.
+Proof. intros V. exact (@hourly_predict_repaired V). Qed.
+Print Assumptions C06_hourly_predict_index_repaired.
 
 (* ---- witnesses against the full statement (each is replayed on the implementation by harness/c06.py) *)
 Definition mk_days (u0 : Z) (obs : bool) (locs : list (option err)) (hs : list (list nat)) : list day :=
@@ -111,49 +127,51 @@ Definition mk_days (u0 : Z) (obs : bool) (locs : list (option err)) (hs : list (
      | [] => []
      | h :: t => expand (u, h, (obs, []), hd None locs) :: go (u + 60 * Z.of_nat (length h))%Z t (tl locs)
      end) u0 hs locs.
-Definition outcome_of (days : list day) : res (list (Z * option Z)) :=
-  hourly_predict zmean (fun _ => 0%Z) zero_regress days.
+Definition outcome_of (pol : policy) (days : list day) : res (list (Z * option Z)) :=
+  hourly_predict zmean (fun _ => 0%Z) zero_regress pol days.
 
 (* D11: no usage column (all NaN) across a clock change: DST days are detected from the count of non-null usage *)
 Definition w_pat_dst : list daykind := [Reg; Short 2; Reg].
 Definition w_no_observed : list day := mk_days 0 false [] (map clock_hours w_pat_dst).
 Example C06_hourly_refuted_without_observed :
   Forall2 clock_only w_no_observed w_pat_dst /\ forallb kind_ok w_pat_dst = true /\ pattern_ok w_pat_dst = true
-  /\ outcome_of w_no_observed = Err ERagged.
-Proof. split; [repeat constructor | vm_compute; repeat split]. Qed.
+  /\ outcome_of as_coded w_no_observed = Err ERagged
+  /\ exists rows, outcome_of repaired w_no_observed = Ok rows /\ length rows = 71.
+Proof. split; [repeat constructor | vm_compute; repeat split]. eexists. split; reflexivity. Qed.
 
 (* D18: the clock changes at local midnight, df.loc["YYYY-MM-DD"] cannot resolve the date *)
 Definition w_pat_midnight : list daykind := [Reg; Short 0; Reg].
 Definition w_midnight : list day := mk_days 0 true [None; Some EKey; None] (map clock_hours w_pat_midnight).
 Example C06_hourly_refuted_midnight_change :
   Forall2 clock_only w_midnight w_pat_midnight /\ pattern_ok w_pat_midnight = true
-  /\ outcome_of w_midnight = Err EKey.
-Proof. split; [repeat constructor | vm_compute; repeat split]. Qed.
-(* with the label resolvable (after a repair of D18) the hour-0 branch of correct_dst is reached and works *)
-Example C06_hourly_midnight_change_resolvable :
-  exists rows, outcome_of (mk_days 0 true [] (map clock_hours w_pat_midnight)) = Ok rows /\ length rows = 71.
-Proof. eexists. vm_compute. split; reflexivity. Qed.
+  /\ outcome_of as_coded w_midnight = Err EKey
+  (* after the repair of D18 the hour-0 branch of correct_dst is reached and works *)
+  /\ exists rows, outcome_of repaired w_midnight = Ok rows /\ length rows = 71.
+Proof. split; [repeat constructor | vm_compute; repeat split]. eexists. split; reflexivity. Qed.
 
 (* a day that skips hour 23 (clock change at 23:00, America/Nuuk since 2023): correct_dst reads feature[23] *)
 Definition w_pat_short23 : list daykind := [Reg; Short 23; Reg].
 Example C06_hourly_refuted_short_23 :
-  Forall2 realises (mk_days 0 true [] (map clock_hours w_pat_short23)) w_pat_short23
-  /\ outcome_of (mk_days 0 true [] (map clock_hours w_pat_short23)) = Err EIndex.
-Proof. split; [repeat constructor | vm_compute; reflexivity]. Qed.
+  Forall2 (realises as_coded) (mk_days 0 true [] (map clock_hours w_pat_short23)) w_pat_short23
+  /\ outcome_of as_coded (mk_days 0 true [] (map clock_hours w_pat_short23)) = Err EIndex
+  /\ outcome_of repaired (mk_days 0 true [] (map clock_hours w_pat_short23)) = Err EIndex.
+Proof. split; [repeat constructor | vm_compute; split; reflexivity]. Qed.
 
 (* a frame that ends on a day repeating hour 23: _transform_dst reads prediction[24 * n] *)
 Definition w_pat_long23 : list daykind := [Reg; Long 23].
 Example C06_hourly_refuted_long_23_last :
-  Forall2 realises (mk_days 0 true [] (map clock_hours w_pat_long23)) w_pat_long23
-  /\ outcome_of (mk_days 0 true [] (map clock_hours w_pat_long23)) = Err EIndex.
-Proof. split; [repeat constructor | vm_compute; reflexivity]. Qed.
+  Forall2 (realises as_coded) (mk_days 0 true [] (map clock_hours w_pat_long23)) w_pat_long23
+  /\ outcome_of as_coded (mk_days 0 true [] (map clock_hours w_pat_long23)) = Err EIndex
+  /\ outcome_of repaired (mk_days 0 true [] (map clock_hours w_pat_long23)) = Err EIndex.
+Proof. split; [repeat constructor | vm_compute; split; reflexivity]. Qed.
 
 (* D19: a 30-minute shift (Australia/Lord_Howe): rows fall on hh:30, the last day of the contiguous index has 23 rows
    (00:30 .. 22:30) and no clock hour is skipped inside 0..22 — correct_dst reads feature[23] *)
 Definition w_half_hour_shift : list day :=
   mk_days 0 true [] [seq 0 24; seq 0 2 ++ seq 1 23; seq 0 24; seq 0 23].
-Example C06_hourly_refuted_half_hour_shift : outcome_of w_half_hour_shift = Err EIndex.
-Proof. vm_compute. reflexivity. Qed.
+Example C06_hourly_refuted_half_hour_shift :
+  outcome_of as_coded w_half_hour_shift = Err EIndex /\ outcome_of repaired w_half_hour_shift = Err EIndex.
+Proof. vm_compute. split; reflexivity. Qed.
 
 (* the guard of C06_transform_dst_eq_spec is needed: a day repeating hour 23 directly followed by a day skipping
    hour 0 puts REMOVE and INTERPOLATE on the same index, and slicing and loop differ *)
@@ -167,10 +185,10 @@ Proof. vm_compute. discriminate. Qed.
 Definition ex_pat : list daykind := [Reg; Short 2; Reg; Long 1; Reg].
 Definition ex_days : list day := mk_days 600 true [] (map clock_hours ex_pat).
 Example C06_nonvacuous_hourly :
-  Forall2 realises ex_days ex_pat /\ pattern_ok ex_pat = true /\ StronglySorted Z.lt (index_of ex_days)
+  Forall2 (realises as_coded) ex_days ex_pat /\ pattern_ok ex_pat = true /\ StronglySorted Z.lt (index_of ex_days)
   /\ total_rows ex_pat = 120
-  /\ get_dst_indices ex_days = Ok ([(1, 2)], [(3, 1)])
-  /\ exists rows, outcome_of ex_days = Ok rows /\ map fst rows = index_of ex_days
+  /\ get_dst_indices as_coded ex_days = Ok ([(1, 2)], [(3, 1)])
+  /\ exists rows, outcome_of as_coded ex_days = Ok rows /\ map fst rows = index_of ex_days
                   /\ forallb (fun r => match snd r with Some _ => true | None => false end) rows = true.
 Proof.
   split; [repeat constructor|]. split; [reflexivity|]. split.
